@@ -467,6 +467,7 @@ class StmtMixin:
         out = set()
         aliases = {}
         deep_names = set()
+        array_alias = set()
         inplace_names = set()   # `x += ...` on a bare name: a rebinding for scalars - not propagated to the container x came from
 
         def note_alias(tgt, src):
@@ -477,9 +478,16 @@ class StmtMixin:
             while isinstance(src, ast.Subscript):
                 src = src.value
             if isinstance(src, ast.Name):
+                # do the container's elements live on the heap (rows of a 2-D array, arrays in a list)?  then `x /= ...` on an element
+                # taken out of it is a numpy in-place update of the container, not the rebinding of a scalar
+                sv = st.vars.get(src.id, (None, False))[0]
+                so = st.heap.get(sv.ref) if isinstance(sv, (Ref, View)) else None
+                arrayish = isinstance(so, (HArr2, HListArr, HListArr2, HListStruct))
                 for nm in assigned_names([ast.Assign(targets=[tgt], value=ast.Constant(value=0))]):
                     if nm != src.id:
                         aliases.setdefault(nm, set()).add(src.id)
+                        if arrayish:
+                            array_alias.add(nm)
 
         for s in list(stmts) + ([loop] if loop is not None else []):
             for n in ([s] if s is loop else ast.walk(s)):
@@ -524,7 +532,7 @@ class StmtMixin:
         while changed:
             changed = False
             for nm, roots in aliases.items():
-                if (nm in out and (nm in deep_names or nm not in inplace_names)) or any(isinstance(x, tuple) and x[0] == nm for x in out):
+                if (nm in out and (nm in deep_names or nm not in inplace_names or nm in array_alias)) or any(isinstance(x, tuple) and x[0] == nm for x in out):
                     if not roots <= out:
                         out |= roots
                         changed = True
